@@ -93,6 +93,15 @@ func main() {
 		fmt.Printf("functions acquiring a lock: %d\n", nAcq)
 		return
 	}
+	if os.Getenv("LC_GBINFER") != "" {
+		w, err := LoadWorld(*repo, modEngine, modAgg)
+		if err != nil {
+			fmt.Fprintln(os.Stderr, err)
+			os.Exit(2)
+		}
+		gbInfer(w)
+		return
+	}
 	if *gen {
 		frozenNames = map[string]fnNames{}
 		w, err := LoadWorld(*repo, modEngine, modAgg)
